@@ -8,6 +8,7 @@ from vlib import *
 import calcgen as cg
 import c01
 import c20
+import c04norm
 
 TRUSTED = c01.TRUSTED + ["map-iteration order and process independence are sampled by repetition (runtime behaviour the model cannot exhibit)"]
 
@@ -39,6 +40,8 @@ def run(c):
         c.report("extraction/oracle build failed: " + out[-800:], {"machinery": "oracle"}, no_input=True)
         return
     shown = 0
+    # ---- non-numeric half: normalisers, scenario notes, map order, leaf codecs (model correspondence + direct judgement) ----
+    c04norm.run_all(c, quick)
     # ---- every example ----
     exs = examples()
     if len(exs) < 50:
@@ -137,7 +140,11 @@ def run(c):
     c.sample({"examples": [p for p, _ in exs[:5]]}, limit=3)
     c.cov["rule"] = ("every example input and output of the repository (%d files), generated invoices (C01 variety) and payments: three rounds of serialise/parse/calculate with byte "
                      "comparison, parse->marshal identity, read-only operations on envelopes, two processes with GOMAXPROCS 1 and 16; the recalculation figures are also compared "
-                     "with the model (as_input then calculate); distinct = distinct documents / files" % len(exs))
+                     "with the model (as_input then calculate); non-numeric half (tools/props/c04norm.py): NormalizeCode / NormalizeAlphanumericalCode / NormalizeNumericalCode, "
+                     "Code and Key validity, Address.Normalize, the scenario-note step of Invoice.Calculate under a synthetic add-on with generated scenario sets, json.Marshal / Unmarshal of "
+                     "cbc.Meta filled in two orders, cal.Date text: each compared with the extracted model of rocq/Fix on exhaustive small inputs (all single bytes, all strings up to length 5 "
+                     "over {A,-,space,#}, all triples over 13 characters) and random mixtures (punctuation, Unicode white space and letters, malformed UTF-8, long runs), and judged "
+                     "directly (second application equal, clean output, order independence, read-back); distinct = distinct documents / files / wire cases" % len(exs))
     if not proved:
         pr = c.proof
         c.report("proof obligations of Props/C04.v no longer check: " + (pr.get("make_log") or pr.get("log", ""))[-600:],
@@ -147,7 +154,14 @@ def run(c):
 def replay(path):
     r = json.load(open(path))["replay"]
     build_harness()
-    if "document" in r:
+    if "notes_case" in r or "map_case" in r or "line" in r:
+        l = r.get("notes_case") or r.get("map_case") or r.get("line")
+        print(run_go([l], shards=1)[0])
+        build_oracle()
+        print(run_oracle([l], shards=1)[0])
+    elif "input_hex" in r:
+        print(run_go(["c04 %s x%s" % (r["normaliser"], r["input_hex"])], shards=1)[0])
+    elif "document" in r:
         print(run_go(["c04 fix " + w(json.dumps(r["document"]))], shards=1)[0])
     elif "payment" in r:
         print(run_go(["c04 fix " + w(json.dumps(r["payment"]))], shards=1)[0])
